@@ -25,7 +25,8 @@ Tol(fn, sc) == IF fn = "Crystal_GetCrystal" THEN [rel |-> RelSingle, abs |-> F("
                ELSE IF fn \in Summed THEN [rel |-> Rel, abs |-> FMul(RelSum, sc)]
                ELSE IF fn \in Signed THEN [rel |-> Rel, abs |-> AbsFloor]
                ELSE [rel |-> Rel, abs |-> F("1e-300")]
-SameDoubles(cd, jd, tol) == Len(cd) = Len(jd) /\ \A k \in 1..Len(cd) : FClose(cd[k], jd[k], tol.rel, tol.abs)
+\* two results agree when they are the same bits (this covers equal infinities), both not-a-number (whatever the payload), or close
+SameDoubles(cd, jd, tol) == Len(cd) = Len(jd) /\ \A k \in 1..Len(cd) : cd[k] = jd[k] \/ (FIsNaN(cd[k]) /\ FIsNaN(jd[k])) \/ FClose(cd[k], jd[k], tol.rel, tol.abs)
 SameSc(fn, c, j, sc) == c[1] = j[1] /\ (c[1] = 1 => c[2] = j[2] /\ SameDoubles(c[3], j[3], Tol(fn, sc)))
 Same(fn, c, j) == SameSc(fn, c, j, Zero)
 \* Arguments within round-off of a discontinuity.  Both implementations are discontinuous in the energy at absorption edges, table ends and
@@ -38,6 +39,9 @@ Between(c, j, alt) ==
   /\ c[1] = 1 /\ j[1] = 1 /\ Len(c[3]) = 1 /\ Len(j[3]) = 1 /\ Len(alt) > 0 /\ \A k \in 1..Len(alt) : alt[k][1] = 1 /\ Len(alt[k][3]) = 1
   /\ LET vs == {c[3][1]} \cup { alt[k][3][1] : k \in 1..Len(alt) } v == j[3][1] IN
      (\E lo \in vs : FLe(lo, v) \/ FClose(lo, v, Rel, F("1e-300"))) /\ (\E hi \in vs : FLe(v, hi) \/ FClose(hi, v, Rel, F("1e-300")))
+\* an argument that is bit-equal to the edge energy in BOTH implementations leaves no room for round-off in the comparison with that edge:
+\* whether the call fails must then agree exactly (the value may still sit on either side of the photo table's own duplicated knot)
+EdgeExact(d) == "xe" \in DOMAIN d /\ d.xe = 1 => d.c[1] = d.j[1]
 SameNear(fn, c, j, sc, alt) == SameSc(fn, c, j, sc) \/ (\E k \in 1..Len(alt) : SameSc(fn, alt[k], j, sc)) \/ Between(c, j, alt)
 Why(fn, c, j) == IF c[1] # j[1] THEN (IF c[1] = 1 THEN "C returns a value, Java throws" ELSE "C reports an error, Java returns a value")
                  ELSE IF c[2] # j[2] THEN "integer / string fields of the result differ" ELSE "values differ beyond round-off"
